@@ -179,6 +179,27 @@ def run(res):
             nals2 = nals[:idx] + [filler_nal] + nals[idx:]
             data2 = S.stream_bytes(C.rng(res.seed, "c05b"), nals2, sc="four", tz_prob=0)
             cases.append(("boundary cs=%d d=%d" % (cs, d), r.choice(["convert", "demux", "remove"]), {}, nals2, data2, cs))
+    # enhancement-layer NALs of the smallest sizes (a 3-byte `7e 01 xx`, a wrapped EOS of 4 bytes, a wrapped AUD
+    # of 5): demux must unwrap them to 1, 2 and 3 bytes, nothing may drop them (own PRNG stream: the cases above
+    # stay what they were)
+    r2 = C.rng(res.seed, "c05small")
+    for k in range(30 if res.tier == "quick" else 300):
+        frames = S.gen_frames(r2, r2.choice([1, 2, 3, 5, 9]), el=True, rpu_pool=pool if r2.random() < 0.7 else None)
+        for f in frames:
+            if r2.random() < 0.6:
+                at = next(i for i, n in enumerate(f) if n.type == 62)
+                small = [S.SNal(H.el_wrap(x)) for x in r2.choice([[bytes([r2.choice([0x80, 0x02, 0x26, 0x4A, 0xFF])])], [H.EOS], [H.aud(1)], [b"\x80", H.EOS, H.aud(0)], [H.EOB]])]
+                pos = r2.randrange(at + 1) if r2.random() < 0.3 else at
+                f[pos:pos] = small
+        nals = S.flatten(frames)
+        data = S.stream_bytes(r2, nals, sc=r2.choice(["mixed", "four", "three"]))
+        cmd = r2.choice(["demux", "demuxel", "demux", "convert", "remove"])
+        opts = {}
+        if cmd == "convert" and r2.random() < 0.5:
+            opts["discard"] = 1
+        if r2.random() < 0.3:
+            opts["annexb"] = 1
+        cases.append(("small-el %d" % k, cmd, opts, nals, data, r2.choice([None, 100, 500, 1000])))
     lines = [model_line(CFG[cmd], opts, nals, data) for (k, cmd, opts, nals, data, cs) in cases]
     mo = C.run_sharded(C.model, lines)
     nrun = 0
@@ -193,12 +214,13 @@ def run(res):
         files = {key: w.read(f) for key, f in outs.items()}
         compare(res, "case %s chunk %s file" % (k, cs), cmd, opts, nals, data, ec, files, parse_model(m), {"chunk_size": cs, "input": "file"})
         # piped stdin with a write fragmentation (convert / demux / remove accept `-`)
-        if isinstance(k, int) and k % 3 == 0:
+        small_pipe = isinstance(k, str) and k.startswith("small-el") and int(k.split()[1]) % 3 == 0
+        if (isinstance(k, int) and k % 3 == 0) or small_pipe:
             args2, outs2 = cli_args(cmd, opts, "-", w)
             for f in outs2.values():
                 if os.path.exists(w.path(f)):
                     os.remove(w.path(f))
-            frag = [r.choice([1, 7, 100, 999, 4096, 50000]) for _ in range(5)]
+            frag = [(r2 if small_pipe else r).choice([1, 7, 100, 999, 4096, 50000]) for _ in range(5)]
             ec2, txt2 = cli.run(args2, w.dir, chunk_size=cs, stdin_data=data, fragments=frag)
             nrun += 1
             files2 = {key: w.read(f) for key, f in outs2.items()}
